@@ -45,10 +45,10 @@ impl Scenario for C05S {
     }
     fn count(&self, tier: Tier, variant: &str) -> u64 {
         match (tier, variant) {
-            (Tier::Quick, "os") => 6000,
-            (Tier::Quick, _) => 2500,
-            (Tier::Thorough, "os") => 250_000,
-            (Tier::Thorough, _) => 100_000,
+            (Tier::Quick, "os") => 30_000,
+            (Tier::Quick, _) => 10_000,
+            (Tier::Thorough, "os") => 1_000_000,
+            (Tier::Thorough, _) => 300_000,
         }
     }
     fn rule(&self) -> &'static str {
